@@ -2,7 +2,7 @@
    (the sanitizer clause is a supporting runtime test, see DESIGN §7: partial) *)
 From Coq Require Import ZArith List Bool Lia.
 Import ListNotations.
-From XO Require Import Slots Strides BufOps BufOpsProofs Types Format LayoutProofs CExpr CExprProofs CSpec CSpecProofs Address.
+From XO Require Import Slots Strides BufOps BufOpsProofs Types Format LayoutProofs RoundTrip CExpr CExprProofs CSpec CSpecProofs Address.
 Open Scope Z_scope.
 
 (* a validated setter stores at exactly the layout's address of the element, for all in-range (and
@@ -16,15 +16,16 @@ Proof. exact cfun_ok_sound. Qed.
 (* IN BOUNDS (and at the right element), end to end: an accessor accepted by the validator, run with in-range indices on ANY buffer that holds
    the documented image of ANY value of its type at ANY offset, computes the address at which the
    documented image of the addressed element sits, and that lies inside the object.  (nav: the element
-   a path denotes under the index arguments; crun: C semantics of the emitted body and return
+   a path denotes under the index arguments, reference steps going to the referent; targets_ok: the reference
+   slots hold slot-relative offsets to where the referents' images sit -- trivially true without references; crun: C semantics of the emitted body and return
    expression; loads read the buffer relative to the object start.)  With C05's tie (the bytes of
    every object ARE the documented image) this is "C and Python address the same bytes". *)
 Theorem C07_accessor_addresses_element : forall f v img m o ix lt lv ic',
   cfun_ok f = None -> (cf_action f = AGetp \/ ((cf_action f = AGet \/ cf_action f = ASet) /\ exists k, lt = TScalar k)) ->
   nav ix (cf_ty f) v (cf_path f) 0 lt lv ic' ->
-  enc (cf_ty f) v = Some img -> sits img m o -> len img < 2^62 ->
+  enc (cf_ty f) v = Some img -> sits img m o -> len img < 2^62 -> targets_ok (cf_ty f) v m o ->
   let addr := o + crun (ld m o) ix (cf_body f) (cf_final f) in
-  exists e, enc lt lv = Some e /\ sits e m addr /\ o <= addr /\ addr + len e <= o + len img.
+  exists e, enc lt lv = Some e /\ sits e m addr /\ (~ In PRef (cf_path f) -> o <= addr /\ addr + len e <= o + len img).
 Proof. exact accessor_addresses_element. Qed.
 Theorem C07_store_changes_exactly_the_element : forall m off bs, in_range m off (Z.of_nat (length bs)) ->
   length (wr m off bs) = length m /\
